@@ -426,6 +426,9 @@ class Parser:
             items = []  # ("e", expr) | ("sep", ";" or ",")
             while not P.at_end():
                 if P.is_op(";") or P.is_op(","):
+                    if not items:
+                        # BASIC09's output list is expr {sep expr} [sep]: it cannot begin with a separator (the tool emits "" in front of one)
+                        raise B09SyntaxError("PRINT list begins with a separator", ln, raw)
                     items.append(("sep", P.next().text))
                 else:
                     if items and items[-1][0] == "e":
